@@ -26,6 +26,8 @@ type Config struct {
 	Preempt     int // pre-emption bound for the scheduler
 	Verbose     bool
 	PanicsAreViolations bool
+	Fallback    []string
+	FallbackTimeoutMs int
 	Progress    int
 }
 
@@ -130,6 +132,8 @@ type Machine struct {
 	pathReached []string
 	facts    map[*sym.Term]*sym.Term
 	lastProgress time.Time
+	fallback map[string]*sym.Solver
+	FallbackQueries int
 }
 
 func NewMachine(prog *ssa.Program, ctx *sym.Ctx, solver *sym.Solver, cfg Config) *Machine {
@@ -182,6 +186,28 @@ func (m *Machine) query(extra *sym.Term) (sym.Result, *sym.Model) {
 	asserts = append(asserts, m.pc...)
 	asserts = append(asserts, extra)
 	res, md := m.solver.Check(m.pc, extra, true)
+	if res == sym.Unknown && len(m.solver.Errors) == 0 {
+		// portfolio: retry the query on the other back ends before giving up
+		for _, name := range m.Cfg.Fallback {
+			fs := m.fallback[name]
+			if fs == nil {
+				var err error
+				fs, err = sym.NewSolver(m.ctx, name, m.Cfg.FallbackTimeoutMs)
+				if err != nil {
+					continue
+				}
+				if m.fallback == nil {
+					m.fallback = map[string]*sym.Solver{}
+				}
+				m.fallback[name] = fs
+			}
+			res, md = fs.Check(m.pc, extra, true)
+			m.FallbackQueries++
+			if res != sym.Unknown {
+				break
+			}
+		}
+	}
 	if res == sym.Sat {
 		if md == nil {
 			res = sym.Unknown
@@ -545,6 +571,13 @@ func (m *Machine) resetPath() {
 	m.ghost = map[interface{}]interface{}{}
 	m.facts = nil
 	m.pathReached = nil
+}
+
+// Close releases the fallback solvers.
+func (m *Machine) Close() {
+	for _, s := range m.fallback {
+		s.Close()
+	}
 }
 
 // backtrack advances the decision stack to the next unexplored alternative.
